@@ -152,10 +152,11 @@ structure MInv (s : State) (now : Nat) : Prop where
   /-- the entry of a record's key is at the record's position or later -/
   latest : ∀ x ∈ allRecs s.files, ∃ i, look s.kv x.1.bucket x.1.key = some i ∧ posLe (posOf x) (i.fid, i.pos)
   /-- an entry is filed under its record's bucket and key, and either its hint addresses a record of the
-  files equal to the cached one, or it is dead and its file is gone -/
+  files equal to the cached one, or it is dead and its file is gone — and so is every file with a smaller id
+  (Merge removes files in ascending order) -/
   hints : AllB s.kv fun b k i => i.r.key = k ∧ i.r.bucket = b ∧
       ((∃ x ∈ allRecs s.files, posOf x = (i.fid, i.pos) ∧ committedRec x.1 = committedRec i.r) ∨
-       (dead i.r now = true ∧ i.fid < s.activeFid ∧ ∀ g ∈ s.files, g.fid ≠ i.fid))
+       (dead i.r now = true ∧ i.fid < s.activeFid ∧ ∀ g ∈ s.files, i.fid < g.fid))
   committedIdx : AllB s.kv fun _ _ i => i.r.txid ∈ s.committed
 
 theorem look_normKV (kv : Assoc (Assoc Idx)) (b k : Bytes) : look (normKV kv) b k = (look kv b k).map normIdx := by
@@ -254,9 +255,9 @@ theorem entry_at_pos (s : State) (now : Nat) (h : MInv s now) (x : LogRec) (hx :
     rw [← this]; exact hyr
   · exfalso
     obtain ⟨f, hf, hfid, _⟩ := mem_allRecs s.files x hx
-    apply hgone f hf
+    have h1 : i.fid < f.fid := hgone f hf
     have : i.fid = x.2.1 := by have := congrArg Prod.fst hpos; simpa [posOf] using this
-    rw [this, hfid]
+    omega
 
 theorem mergeSelect_go_eq (s : State) (now : Nat) (h : MInv s now) (f : File) (hf : f ∈ s.files)
     (l : List (Nat × Rec)) (hl : ∀ p ∈ l, p ∈ f.recs) (acc : List Rec) :
@@ -947,7 +948,8 @@ theorem remove_step (s s1 : State) (now : Nat) (h : MInv s now) (f : File) (hf :
     (hlog : allRecs s1.files = allRecs s.files ++ extra) (hkv : s1.kv = rawFold s.kv extra)
     (hextra : ∀ x ∈ extra, s.activeFid < x.2.1 ∧ x.1.txid ∈ s1.committed ∧ x.1.ds = dsKV ∧ ¬ x.1.size > s.opt.seg ∧
         ∃ p ∈ f.recs, isSel s f now p = true ∧ x.1.bucket = p.2.bucket ∧ x.1.key = p.2.key ∧ vrec x.1 = vrec p.2 ∧ x.1.flag = p.2.flag)
-    (hcover : ∀ p ∈ f.recs, isSel s f now p = true → ∃ x ∈ extra, x.1.bucket = p.2.bucket ∧ x.1.key = p.2.key) :
+    (hcover : ∀ p ∈ f.recs, isSel s f now p = true → ∃ x ∈ extra, x.1.bucket = p.2.bucket ∧ x.1.key = p.2.key)
+    (hmin : ∀ g ∈ s.files, f.fid ≤ g.fid) :
     MInv (dropFile s1 f.fid) now := by
   -- ids: the removed file is below the active one
   obtain ⟨pre0, a0, hf0, ha0, hpre0⟩ := h.shape.split
@@ -1085,7 +1087,14 @@ theorem remove_step (s s1 : State) (now : Nat) (h : MInv s now) (f : File) (hf :
           have hpf : p.2.fid = g.fid := by have := congrArg Prod.fst hxp; simp only [posOf] at this; rw [← this, hxf]
           refine ⟨hdead, ?_, ?_⟩
           · show p.2.fid < s1.activeFid; rw [hpf]; exact hflt
-          · intro g' hg'; rw [hpf]; exact (hsub g' hg').2
+          · intro g' hg'
+            rw [hpf]
+            have hne' := (hsub g' hg').2
+            rcases hfids g' (hsub g' hg').1 with h1 | h1
+            · obtain ⟨g0, hg0, hg0f⟩ := List.mem_map.mp h1
+              have := hmin g0 hg0
+              omega
+            · omega
         · exact Or.inl ⟨x, (hmem2 x).mpr ⟨Or.inl hx, hxf⟩, hxp, hxr⟩
       · right
         refine ⟨hd, by show p.2.fid < s1.activeFid; omega, ?_⟩
@@ -1110,11 +1119,14 @@ theorem fileGet_mem (fs : List File) (fid : Nat) (f : File) (h : fileGet? fs fid
 
 /-- one step of the loop for a file that is there -/
 theorem merge_file_step (s : State) (now : Nat) (h : MInv s now) (f : File) (hf : f ∈ s.files) (tid : Nat)
-    (hguard : (f.recs.filter (isSel s f now)).map (·.2) ≠ [] ∨ f.fid ≠ s.activeFid) :
+    (hguard : (f.recs.filter (isSel s f now)).map (·.2) ≠ [] ∨ f.fid ≠ s.activeFid)
+    (hmin : ∀ g ∈ s.files, f.fid ≤ g.fid) :
     let recs := (f.recs.filter (isSel s f now)).map (·.2)
     let s2 := dropFile (rewrite s recs tid).1 f.fid
     (rewrite s recs tid).2 = .ok () ∧ MInv s2 now ∧ visKV s2.kv = visKV s.kv ∧
-    (∀ id, id ∈ s.committed → id ∈ s2.committed) ∧ s2.opt = s.opt := by
+    (∀ id, id ∈ s.committed → id ∈ s2.committed) ∧ s2.opt = s.opt ∧
+    s.activeFid ≤ s2.activeFid ∧
+    (∀ g ∈ s2.files, (g.fid ∈ s.files.map (·.fid) ∧ g.fid ≠ f.fid) ∨ s.activeFid < g.fid) := by
   intro recs s2
   by_cases hne : recs = []
   · -- nothing to rewrite: the state is unchanged, the file is dropped
@@ -1129,10 +1141,13 @@ theorem merge_file_step (s : State) (now : Nat) (h : MInv s now) (f : File) (hf 
       have : p.2 ∈ recs := List.mem_map.mpr ⟨p, List.mem_filter.mpr ⟨hp, hsel⟩, rfl⟩
       rw [hne] at this; cases this
     have hm := remove_step s s now h f hf [] h.shape h.packed rfl (Nat.le_refl _) hfne h.sorted (fun _ hid => hid)
-      (fun g hg => Or.inl (List.mem_map.mpr ⟨g, hg, rfl⟩)) (by simp) rfl (fun x hx => by cases hx) hnosel
+      (fun g hg => Or.inl (List.mem_map.mpr ⟨g, hg, rfl⟩)) (by simp) rfl (fun x hx => by cases hx) hnosel hmin
     have hs2 : s2 = dropFile s f.fid := by show dropFile (rewrite s recs tid).1 f.fid = _; rw [hrw]
     rw [hs2, hrw]
-    exact ⟨rfl, hm, rfl, fun _ hid => hid, rfl⟩
+    refine ⟨rfl, hm, rfl, fun _ hid => hid, rfl, Nat.le_refl _, ?_⟩
+    intro g hg
+    have := List.mem_filter.mp hg
+    exact Or.inl ⟨List.mem_map.mpr ⟨g, this.1, rfl⟩, by simpa using this.2⟩
   · obtain ⟨hout, hsh1, hpk1, hopt1, hact1, hvis1, hsorted1, hcom1, hfids1, extra, hlog1, hkv1, hextra1, hcover1⟩ :=
       rewrite_step s now h f hf tid hne
     have hfle : f.fid ≤ s.activeFid := by
@@ -1144,8 +1159,13 @@ theorem merge_file_step (s : State) (now : Nat) (h : MInv s now) (f : File) (hf 
     have hact1' : s.activeFid < (rewrite s recs tid).1.activeFid := hact1
     have hfne1 : f.fid ≠ (rewrite s recs tid).1.activeFid := by omega
     have hm := remove_step s (rewrite s recs tid).1 now h f hf extra hsh1 hpk1 hopt1 (Nat.le_of_lt hact1') hfne1
-      hsorted1 hcom1 hfids1 hlog1 hkv1 hextra1 hcover1
-    exact ⟨hout, hm, hvis1, hcom1, hopt1⟩
+      hsorted1 hcom1 hfids1 hlog1 hkv1 hextra1 hcover1 hmin
+    refine ⟨hout, hm, hvis1, hcom1, hopt1, Nat.le_of_lt hact1', ?_⟩
+    intro g hg
+    have hgf := List.mem_filter.mp hg
+    rcases hfids1 g hgf.1 with h1 | h1
+    · exact Or.inl ⟨h1, by simpa using hgf.2⟩
+    · exact Or.inr h1
 
 /-- a state from which the rest of the loop does nothing: none of the remaining ids names a file -/
 theorem go_skip (now : Nat) (s : State) (fids txids : List Nat) (h : ∀ fid ∈ fids, fileGet? s.files fid = none) :
@@ -1160,7 +1180,8 @@ theorem go_skip (now : Nat) (s : State) (fids txids : List Nat) (h : ∀ fid ∈
 /-- **the loop of Merge** on a state with the invariant: if it ends with the active file still linked, it
 succeeded, kept the invariant, and changed nothing visible in the index -/
 theorem go_spec (now : Nat) (fids : List Nat) (s : State) (txids : List Nat) (h : MInv s now)
-    (hasc : fids.Pairwise (· < ·)) :
+    (hasc : fids.Pairwise (· < ·))
+    (hcov : ∀ g ∈ s.files, g.fid ∈ fids ∨ ∀ x ∈ fids, x < g.fid) (hle : ∀ x ∈ fids, x ≤ s.activeFid) :
     (merge.go now s fids txids).1.activeUnlinked = false →
     (merge.go now s fids txids).2 = .ok () ∧ MInv (merge.go now s fids txids).1 now ∧
     visKV (merge.go now s fids txids).1.kv = visKV s.kv ∧
@@ -1176,15 +1197,34 @@ theorem go_spec (now : Nat) (fids : List Nat) (s : State) (txids : List Nat) (h 
     | none =>
       rw [hget] at hlinked
       simp only [hget]
-      exact ih s txids h hasc.2 hlinked
+      have hnofile : ∀ g ∈ s.files, g.fid ≠ fid := by
+        intro g hg he
+        unfold fileGet? at hget
+        rw [List.find?_eq_none] at hget
+        exact hget g hg (by simp [he])
+      refine ih s txids h hasc.2 ?_ (fun x hx => hle x (by simp [hx])) hlinked
+      intro g hg
+      rcases hcov g hg with h1 | h1
+      · rcases List.mem_cons.mp h1 with h2 | h2
+        · exact absurd h2 (hnofile g hg)
+        · exact Or.inl h2
+      · exact Or.inr (fun x hx => h1 x (by simp [hx]))
     | some f =>
       rw [hget] at hlinked
       simp only [hget] at hlinked ⊢
       obtain ⟨hf, hfid⟩ := fileGet_mem s.files fid f hget
       rw [mergeSelect_eq s now h f hf] at hlinked ⊢
       simp only [] at hlinked ⊢
+      have hmin : ∀ g ∈ s.files, f.fid ≤ g.fid := by
+        intro g hg
+        rw [hfid]
+        rcases hcov g hg with h1 | h1
+        · rcases List.mem_cons.mp h1 with h2 | h2
+          · omega
+          · have := hasc.1 g.fid h2; omega
+        · have := h1 fid (by simp); omega
       by_cases hguard : (f.recs.filter (isSel s f now)).map (·.2) ≠ [] ∨ f.fid ≠ s.activeFid
-      · obtain ⟨hout, hm2, hvis2, hcom2, hopt2⟩ := merge_file_step s now h f hf (txids.headD 0) hguard
+      · obtain ⟨hout, hm2, hvis2, hcom2, hopt2, hact2, hfiles2⟩ := merge_file_step s now h f hf (txids.headD 0) hguard hmin
         have hpair : rewrite s ((f.recs.filter (isSel s f now)).map (·.2)) (txids.headD 0) =
             ((rewrite s ((f.recs.filter (isSel s f now)).map (·.2)) (txids.headD 0)).1, .ok ()) := by
           rw [← hout]
@@ -1197,7 +1237,23 @@ theorem go_spec (now : Nat) (fids : List Nat) (s : State) (txids : List Nat) (h 
             dropFile (rewrite s ((f.recs.filter (isSel s f now)).map (·.2)) (txids.headD 0)).1 f.fid := by
           rw [hfid]; rfl
         rw [hdrop] at hlinked ⊢
-        obtain ⟨r1, r2, r3, r4, r5⟩ := ih _ _ hm2 hasc.2 hlinked
+        have hcov2 : ∀ g ∈ (dropFile (rewrite s ((f.recs.filter (isSel s f now)).map (·.2)) (txids.headD 0)).1 f.fid).files,
+            g.fid ∈ rest ∨ ∀ x ∈ rest, x < g.fid := by
+          intro g hg
+          rcases hfiles2 g hg with ⟨h1, h2⟩ | h1
+          · obtain ⟨g0, hg0, hg0f⟩ := List.mem_map.mp h1
+            rcases hcov g0 hg0 with h3 | h3
+            · rcases List.mem_cons.mp h3 with h4 | h4
+              · exfalso; apply h2; rw [← hg0f, h4, hfid]
+              · exact Or.inl (by rw [← hg0f]; exact h4)
+            · exact Or.inr (fun x hx => by rw [← hg0f]; exact h3 x (by simp [hx]))
+          · exact Or.inr (fun x hx => by have := hle x (by simp [hx]); omega)
+        have hle2 : ∀ x ∈ rest, x ≤ (dropFile (rewrite s ((f.recs.filter (isSel s f now)).map (·.2)) (txids.headD 0)).1 f.fid).activeFid := by
+          intro x hx
+          have := hle x (by simp [hx])
+          have h2 : s.activeFid ≤ (dropFile (rewrite s ((f.recs.filter (isSel s f now)).map (·.2)) (txids.headD 0)).1 f.fid).activeFid := hact2
+          omega
+        obtain ⟨r1, r2, r3, r4, r5⟩ := ih _ _ hm2 hasc.2 hcov2 hle2 hlinked
         exact ⟨r1, r2, by rw [r3, hvis2], fun id hid => r4 id (hcom2 id hid), by rw [r5, hopt2]⟩
       · -- the active file, with nothing to rewrite: it is removed while still active; nothing after it
         exfalso
@@ -1254,6 +1310,13 @@ theorem merge_spec (s : State) (now : Nat) (txids : List Nat) (h : MInv s now) :
     have hm : merge s now txids = merge.go now s (s.files.map (·.fid)) txids := by
       unfold merge; simp [hge]
     rw [hm] at hlinked ⊢
-    exact go_spec now _ s txids h h.packed.fids hlinked
+    refine go_spec now _ s txids h h.packed.fids (fun g hg => Or.inl (List.mem_map.mpr ⟨g, hg, rfl⟩)) ?_ hlinked
+    intro x hx
+    obtain ⟨g, hg, rfl⟩ := List.mem_map.mp hx
+    obtain ⟨pre0, a0, hf0, ha0, hpre0⟩ := h.shape.split
+    rw [hf0] at hg
+    rcases List.mem_append.mp hg with hg | hg
+    · have := hpre0 g hg; omega
+    · simp at hg; subst hg; omega
 
 end NutsProofs.MergeKV
